@@ -56,9 +56,10 @@ func (fr *Frame) callModifies(ins ssa.CallInstruction) ([]string, bool) {
 			et := cc.Args[0].Type().Underlying().(*types.Slice).Elem()
 			return []string{vc.arrComp(et)}, true
 		case "delete":
-			return []string{"$maps"}, true
+			return []string{vc.mapComp(cc.Args[0].Type().Underlying().(*types.Map))}, true
 		case "close":
-			return []string{"$chans"}, true
+			vc.comp("$chclosed", "(Array Int Bool)")
+			return []string{"$chclosed"}, true
 		case "recover":
 			return []string{"$panic"}, true
 		}
@@ -1214,4 +1215,32 @@ func blockReaches(from, to *ssa.BasicBlock) bool {
 func (fr *Frame) requireOwnedOrNil(p string, what string, pos token.Pos, st *State) {
 	vc := fr.vc
 	vc.oblige("ownership", fr.ownTags(), fr.curReach, fmt.Sprintf("(or (= %s 0) (select %s %s))", p, vc.get(st, vc.ownedComp()), p), "pooled object is owned (not used after Put): "+what, pos, nil)
+}
+
+// atSendAsserts checks `at send <chan>: assert e` clauses; $val is the value sent.
+func (fr *Frame) atSendAsserts(ins *ssa.Send, v Term, st *State) {
+	if fr.spec == nil || !fr.isTop {
+		return
+	}
+	vc := fr.vc
+	for _, at := range fr.spec.Ats {
+		if !strings.HasPrefix(at.Callee, "send:") {
+			continue
+		}
+		name := strings.TrimPrefix(at.Callee, "send:")
+		if p, ok := ins.Chan.(*ssa.Parameter); !ok || p.Name() != name {
+			if ins.Chan.Name() != name {
+				continue
+			}
+		}
+		ctx := fr.specCtx(st, fr.entry, fr.curBlock, fr.curIdx)
+		v.T = ins.X.Type()
+		ctx.env["$val"] = v
+		g, err := ctx.evalBool(at.Clause.E)
+		if err != nil {
+			vc.unsupportedf("at send %s: %v", name, err)
+			continue
+		}
+		vc.oblige("assert", fr.tagsFor(at.Clause.Tags), fr.curReach, g, fmt.Sprintf("at send %s: %s", name, at.Clause.Text), ins.Pos(), at.Clause)
+	}
 }
